@@ -166,6 +166,12 @@ fn main() {
                 }
             }
         }
+        "miri" => {
+            // small workload for the undefined-behaviour interpreter (no file access)
+            let shard: u64 = args.get(2).and_then(|s| s.parse().ok()).unwrap_or(0);
+            let ops = m_mem::miri_workload(shard);
+            println!("MIRI-OPS {ops}");
+        }
         "run" => {
             if args.len() < 5 {
                 usage();
